@@ -83,6 +83,23 @@ def main():
                     f = getattr(f, '__func__', f)
                     if hasattr(f, '__code__') and not name.startswith('__'):
                         targets.append(f.__code__)
+        # ... and every function / method of the blueprint and helper modules (where a result is put together)
+        import importlib
+        for mn in ('pydbml.parser.blueprints', 'pydbml.tools'):
+            try:
+                M = importlib.import_module(mn)
+            except Exception:  # noqa
+                continue
+            for obj in vars(M).values():
+                if getattr(obj, '__module__', None) != M.__name__:
+                    continue
+                if hasattr(obj, '__code__'):
+                    targets.append(obj.__code__)
+                elif isinstance(obj, type):
+                    for name, f in vars(obj).items():
+                        f = getattr(f, '__func__', f)
+                        if hasattr(f, '__code__') and not name.startswith('__'):
+                            targets.append(f.__code__)
         for c in targets:
             mon.set_local_events(DLY, c, mon.events.LINE)
     if spec['perturb'] in ('switch', 'victim'):
